@@ -573,6 +573,19 @@ class Esc:
             for x in nodes:
                 if isinstance(x, ast.Subscript) and isinstance(x.ctx, ast.Load) and not isinstance(x.slice, ast.Slice):
                     subscript(x, hs, line)
+                if isinstance(x, ast.Attribute) and isinstance(x.ctx, ast.Load):
+                    # reading a UintField declared with an Enum base converts the stored number: Enum(value) raises ValueError for a number
+                    # that is no member (IntFlag keeps unknown bits and does not)
+                    bt_ = type_of(x.value)
+                    if bt_ and bt_ in P.classes and self.M.is_model(bt_):
+                        f_ = self.M.field(bt_, x.attr)
+                        if f_ is not None and f_.base_type is not None:
+                            rb = P.resolve(f_.mod, f_.base_type)
+                            bases = [c_ for (_m, c_) in P.mro(rb[1], rb[2])] if rb and rb[0] == 'class' and (rb[1], rb[2]) in P.classes else []
+                            ext = [ast.unparse(b_) for b_ in P.classes[(rb[1], rb[2])].bases] if rb and rb[0] == 'class' and (rb[1], rb[2]) in P.classes else []
+                            if not any('IntFlag' in t_ for t_ in ext + bases):
+                                emit('ValueError', f'{path}:{line} {ast.unparse(x)}: the stored number is converted with {ast.unparse(f_.base_type)}(..), which '
+                                     'raises for a value that is no member', hs, line)
                 if isinstance(x, ast.Attribute) and isinstance(x.ctx, ast.Load) and is_nullable(x.value):
                     emit('AttributeError', f'{path}:{line} attribute .{x.attr} of nullable {ast.unparse(x.value)}', hs, line)
                 if isinstance(x, ast.Compare) and any(isinstance(o, (ast.Lt, ast.Gt, ast.LtE, ast.GtE)) for o in x.ops):
